@@ -93,6 +93,10 @@ pub enum Action {
     Critical { ms: u64 },
     Stall { ms: u64 },
     SetWindow { link: usize, window: i32 },
+    /// REG2 replies towards the sender are lost on this path while on.
+    DropReg2 { link: usize, on: bool },
+    /// The SRT endpoint restarts / rebinds: its datagrams come from a new source port from now on.
+    ClientRebind { port: u16 },
     /// Direct write of the inputs the loop glue stamps onto a link (they are overwritten by the
     /// next housekeeping tick): weak / loss-degraded verdicts.
     SetGlue { link: usize, weak: bool, loss_degraded: bool },
@@ -119,6 +123,8 @@ impl Action {
             Action::Critical { .. } => "critical",
             Action::Stall { .. } => "stall",
             Action::SetWindow { .. } => "set_window",
+            Action::ClientRebind { .. } => "client_rebind",
+            Action::DropReg2 { .. } => "drop_reg2",
             Action::SetGlue { .. } => "set_glue",
         }
     }
@@ -667,7 +673,8 @@ pub fn shrink(plan: &LPlan) -> Vec<LPlan> {
             | Action::BindFail { link, .. }
             | Action::Inject { link, .. }
             | Action::SetWindow { link, .. }
-            | Action::SetGlue { link, .. } => *link == last,
+            | Action::SetGlue { link, .. }
+            | Action::DropReg2 { link, .. } => *link == last,
             _ => false,
         });
         if !names_last {
